@@ -141,7 +141,7 @@ Proof.
   split.
   { constructor; [|constructor; [|constructor]].
     - split.
-      + unfold attr_name_wf. cbn. split; [split; reflexivity|]. intros rest. reflexivity.
+      + unfold attr_name_wf. cbn. split; reflexivity.
       + split; [cbn; auto|]. cbn [xa_values].
         constructor; [split; [discriminate|reflexivity]|constructor; [|constructor]].
         split; [reflexivity|]. vm_compute. reflexivity.
